@@ -1160,7 +1160,9 @@ static size_t cmt_parse_lead(const UncText &line, bool is_last)
          }
          break;
       }
-      else if (strchr("*|\\#+", line[len]) == nullptr)
+      else if (  line[len] <= 0     // strchr() finds the terminating NUL, too
+              || line[len] >= 0x80  // and converts a code point to its low byte
+              || strchr("*|\\#+", line[len]) == nullptr)
       {
          break;  // none of the characters '*|\#+' found in line
       }
